@@ -96,6 +96,7 @@ pub enum Pres {
 pub enum DataSpec {
     None,
     Dwarf(Pres, Vec<FdeSpec>),
+    Pe(Vec<crate::pe::PeFuncSpec>),
 }
 
 /// How FDE addresses and the hdr table are encoded (irrelevant to the model).
@@ -178,6 +179,12 @@ impl ModSpec {
                 };
                 let f: Vec<String> = fdes.iter().map(|f| f.show()).collect();
                 format!("dwarf;{};{}", p, f.join("|"))
+            }
+            DataSpec::Pe(funcs) => {
+                let mut sorted: Vec<&crate::pe::PeFuncSpec> = funcs.iter().collect();
+                sorted.sort_by_key(|f| f.begin);
+                let f: Vec<String> = sorted.iter().map(|f| f.show()).collect();
+                format!("pe;{}", f.join("|"))
             }
         }
     }
